@@ -135,6 +135,12 @@ def corpus(ctx, rnd, quick):
                 try: s = S.build(rnd, kind, {"hashtype": ht, "n_out": n_out, "n_in": 1 if n_out == 0 else 3, "idx": 0 if n_out == 0 else 2})
                 except Exception: continue
                 sp.append(S.spend_line(s.tx, s.txin, R.STD))
+    # amount prefixes shorter / longer than the list of inputs, the spent input being beyond the amounts given
+    for kind in S.KINDS:
+        if kind.startswith("p2tr"): continue
+        for (n_in, idx, am) in ((3, 2, ["0.5"]), (3, 1, ["0.5"]), (3, 2, ["1", "2"]), (3, 0, ["1"]), (2, 1, ["1", "2", "3", "4"]), (3, 2, [])):
+            s = S.build(rnd, kind, {"n_in": n_in, "idx": idx})
+            sp.append(S.spend_line(s.tx, s.txin, R.STD, amounts=am if am else None))
     out["spend"] = sp
     tx = []
     for rep in range(300 if quick else 5000):
